@@ -488,9 +488,13 @@ func c07RunModel(sc drv.Scenario, p *c07Model) drv.Result {
 		return min
 	}
 	rounds := func(vb, n int) {
-		base := len(env.Log.Filter(func(r evlog.Rec) bool { return r.K == "sim.tx" && r.Op == cbsim.OpObserveSeqno && r.VB == vb && r.B == 0 }))
+		base := len(env.Log.Filter(func(r evlog.Rec) bool {
+			return r.K == "sim.tx" && r.Op == cbsim.OpObserveSeqno && r.VB == vb && r.B == 0
+		}))
 		hx.WaitFor(8*time.Second, func() bool {
-			return len(env.Log.Filter(func(r evlog.Rec) bool { return r.K == "sim.tx" && r.Op == cbsim.OpObserveSeqno && r.VB == vb && r.B == 0 }))-base >= n
+			return len(env.Log.Filter(func(r evlog.Rec) bool {
+				return r.K == "sim.tx" && r.Op == cbsim.OpObserveSeqno && r.VB == vb && r.B == 0
+			}))-base >= n
 		})
 	}
 	checks := 0
